@@ -591,7 +591,7 @@ func Main(args []string) int {
 			fmt.Fprintln(os.Stderr, "gatewayh:", err)
 			return 2
 		}
-		sem := make(chan struct{}, *workers)
+		sem := make(chan struct{}, 4**workers) // many more clients than cores: the point is contention
 		var wg sync.WaitGroup
 		for n, j := range sessions {
 			wg.Add(1)
